@@ -16,7 +16,9 @@ Replay.
    point in one further admissible container that rotates from call to call.
 A container the implementation refuses (exception) is an observation.  A returned vector must be the spec's vector (single
 precision container: 1e-5 relative - the point is exact, the arithmetic is not), outside the support it must not be finite.
-At the boundary of the Uniform box nothing is asserted (closed / open box: a set of measure zero).
+ON the boundary of a support (a set of measure zero: open / closed is a convention) the spec asserts no value, only that every
+admissible container is answered like the reference container: non-finite where that answer is non-finite, the same vector
+where it is a finite vector (third conjunct of ContainerIndependent).
 """
 import math
 
@@ -195,7 +197,8 @@ def _count(ctx, key):
     ctx.facets[key] = ctx.facets.get(key, 0) + 1
 
 
-def one_call(ctx, case, sig, outcome, obj, kind, x, gexp, d, fd=False, logf=0.0, tag="", asserted=True, where="lattice", support=None):
+def one_call(ctx, case, sig, outcome, obj, kind, x, gexp, d, fd=False, logf=0.0, tag="", asserted=True, where="lattice", support=None,
+             ref=None):
     """gradient of `obj` at x carried by container `kind`; judged like the reference call.  tag: "<family or object kind>/.." """
     c03, fc = _c03(), _fc()
     st, xc, _ = fc.call(lambda: make(kind, x, getattr(obj, "geometry", None)))
@@ -210,12 +213,22 @@ def one_call(ctx, case, sig, outcome, obj, kind, x, gexp, d, fd=False, logf=0.0,
     else:
         _count(ctx, "ctn_value/%s/%s/%s/%s" % (where, tag.split("/")[0] if tag else "?", cls, kind))
     if not asserted:
-        if r[0] == "value":
+        # boundary of the support: no value is asserted; the answer for this container is the answer for the reference container
+        if r[0] == "value" and ref is not None and ref[0] == "value" and ref[1] is not None and r[1] is not None:
             try:
-                fin = bool(np.all(np.isfinite(np.asarray(r[1], dtype=float))))
+                a, b = np.asarray(r[1], dtype=float).ravel(), np.asarray(ref[1], dtype=float).ravel()
             except Exception:        # noqa: BLE001
-                fin = None
-            _obs(ctx, "boundary_not_asserted", "%s/%s/%s" % (tag.split("/")[0], kind, "finite" if fin else "non-finite"))
+                a = b = None
+            if a is not None and b.size == d:
+                rfin = bool(np.all(np.isfinite(b)))
+                _obs(ctx, "boundary_reference_answer", "%s/%s/%s" % (tag.split("/")[0], "fd" if fd else "analytic", "finite" if rfin else "non-finite"))
+                if not rfin:
+                    c03.judge(ctx, case, sig, outcome, r, None, d, fd=fd, logf=logf, tag="ctn/%s/%s%s" % (tag, kind, "/FD" if fd else ""))
+                else:
+                    tol = (1e-4 if fd else (SINGLE_RTOL if TABLE[kind]["single"] else 1e-9)) * max(1.0, float(np.max(np.abs(b))))
+                    if a.size != d or not np.all(np.isfinite(a)) or float(np.max(np.abs(a - b))) > tol:
+                        ctx.mismatch(sig, case, "on the boundary of the support the gradient depends on the container of the evaluation "
+                                     "point (reference: the same object at the same point in a float64 array)", b, a)
     else:
         c03.judge(ctx, case, sig, outcome, r, gexp, d, fd=fd, logf=logf, tag="ctn/%s/%s%s" % (tag, kind, "/FD" if fd else ""),
                   tol=None if fd else tol_of(kind, gexp))
@@ -226,23 +239,35 @@ def one_call(ctx, case, sig, outcome, obj, kind, x, gexp, d, fd=False, logf=0.0,
 # ======================================================================================================================
 # main lattice: one rotating admissible container next to every reference call
 # ======================================================================================================================
+ALL_KINDS = False           # replay of a stored case: every admissible kind instead of the rotating one
+
+
 def pick(x, fam):
-    """one admissible container kind other than the reference, rotating per (family, set of admissible kinds)"""
+    """the admissible container kinds (other than the reference) of this call: ONE, rotating per (family, set of admissible
+    kinds); all of them when a stored case is replayed"""
     if TABLE is None:
-        return None
+        return []
     kinds = [k for k in admissible(x) if k != REF]
-    if not kinds:
-        return None
+    if not kinds or ALL_KINDS:
+        return kinds
     key = (fam, len(kinds))
     _ROT[key] = _ROT.get(key, -1) + 1
-    return kinds[_ROT[key] % len(kinds)]
+    return [kinds[_ROT[key] % len(kinds)]]
+
+
+_FD_TURN = [0]
+
+
+def fd_turn(kinds):
+    """the finite-difference repetition of a container call of the main lattice: every second call"""
+    _FD_TURN[0] += 1
+    return kinds if (_FD_TURN[0] % 2 == 0 or ALL_KINDS) else []
 
 
 def extra(ctx, case, sig, outcome, obj, x, gexp, d, kind, fd=False, logf=0.0, tag=""):
-    """the reference call of props/c03.py again with the point in container `kind`"""
-    if kind is None:
-        return
-    one_call(ctx, case, "%s/container=%s" % (sig, kind), outcome, obj, kind, x, gexp, d, fd=fd, logf=logf, tag=tag)
+    """the reference call of props/c03.py again with the point in the container kind(s) `kind` (list from pick())"""
+    for k in kind or ():
+        one_call(ctx, case, "%s/container=%s" % (sig, k), outcome, obj, k, x, gexp, d, fd=fd, logf=logf, tag=tag)
 
 
 # ======================================================================================================================
@@ -271,10 +296,11 @@ def check_probe(ctx, table, case):
             if fd and fc.call(lambda: dist.enable_FD())[0] == "raise":
                 continue
             what = "gradientFD" if fd else "gradient"
+            ref = None if asserted else fc.call(lambda: dist.gradient(make(REF, x)))
             for kind in kinds:
                 sig = "ctn/%s/%s/way=%s/dim=%d/support=%s/probe=%d/container=%s" % (what, fam, way, d, tag, case["probe"], kind)
                 one_call(ctx, case, sig, table[(fam, False, "identity", fd)], dist, kind, x, gexp, d, fd=fd, logf=logf,
-                         tag="%s/%s" % (fam, tag), asserted=asserted, where="probe", support=tag)
+                         tag="%s/%s" % (fam, tag), asserted=asserted, where="probe", support=tag, ref=ref)
             if fd:
                 fc.call(lambda: dist.disable_FD())
 
@@ -293,7 +319,7 @@ def run(ctx, table, probes):
     # as admissible for a probe point of that class
     got = {k[10:]: v for k, v in ctx.facets.items() if k.startswith("ctn_value/")}
     fams = sorted({c["fam"] for c in probes})
-    want = {(c["fam"], c["tag"], k["name"]) for c in probes if c["asserted"] for k in c["kinds"]
+    want = {(c["fam"], c["tag"], k["name"]) for c in probes for k in c["kinds"]
             if k["ok"] and k["name"] in ("f64", "i64", "f32", "pyint")}
     miss = sorted(w for w in want if not got.get("probe/%s/%s/%s" % w))
     if miss or not any(w[1] == "above" and w[2] == "i64" for w in want) or not any(w[1] == "boundary" and w[2] == "pyint" for w in want):
@@ -318,8 +344,13 @@ def run(ctx, table, probes):
                 "kinds": [k["name"] for k in c["kinds"] if k["ok"]]})
 
 
+def load_table(ctx):
+    """replay of a stored case: the container table of the spec; every admissible kind is evaluated"""
+    global ALL_KINDS
+    collect_tlc(ctx, start_tlc(ctx, "quick"))
+    ALL_KINDS = True
+
+
 def replay(ctx, table, case):
-    jobs = start_tlc(ctx, "quick")
-    collect_tlc(ctx, jobs)
-    if case.get("probe") is not None:
-        check_probe(ctx, table, case)
+    load_table(ctx)
+    check_probe(ctx, table, case)
